@@ -267,6 +267,7 @@ def run_history(scn, chooser):
     log = []
     counter = {'seq': 0, 'exec': 0}
     clock = 1.0e6
+    prev = None     # what the previous run left, if it completed
     try:
         for r, run in enumerate(scn['runs']):
             here = present(scn, r)
@@ -279,6 +280,11 @@ def run_history(scn, chooser):
             init_env = mods['common'].read_env(root=root, names=names,
                                                filename=FILENAME, fmt='pickle')
             init = snapshot(init_env, scn, here)
+            if prev is not None:
+                carried_over(scn, r, here, run['lose_env'], prev, init, res)
+                if res.violations:
+                    break
+            prev = None
             sub = chooser.for_run(r, scn)
             lf = load.line_files(mods) if scn.get('linemode') else None
             sim = core.Sim(sub, tick=scn['tick'], t0=clock, line_files=lf,
@@ -355,6 +361,7 @@ def run_history(scn, chooser):
                 _fact(res, 'runs-crashed-while-writing')
                 continue
             final = snapshot(holder['env'], scn, here)
+            prev = final
             judge(scn, r, here, init, final, log, res)
             if res.violations:
                 break
@@ -380,6 +387,37 @@ def transitive(scn, i, here):
                 seen.add(j)
                 todo.append(j)
     return seen
+
+
+def carried_over(scn, r, here, lost, prev, init, res):
+    '''What a completed run reported and persisted is what the next run
+    starts from: DONE entries identical, anything else absent.'''
+    specs = scn['tasks']
+    for i in here:
+        ent = prev.get(i)
+        if i in lost or not ent or 'output_dir' not in ent:
+            continue
+        got = init.get(i)
+        if ent.get('status') == 'DONE':
+            _fact(res, 'judged-carried-over-entries')
+            if got is None:
+                res.violations.append((
+                    'carry-over', 'done-entry-not-carried-over',
+                    {'run': r, 'task': specs[i]['name']}))
+                return
+            diff = deep_diff(got, ent)
+            if diff:
+                res.violations.append((
+                    'carry-over', 'carried-over-entry-changed',
+                    {'run': r, 'task': specs[i]['name'], 'diff': diff[:4]}))
+                return
+        elif got is not None:
+            res.violations.append((
+                'carry-over', 'entry-that-was-not-done-carried-over',
+                {'run': r, 'task': specs[i]['name'],
+                 'status_persisted': ent.get('status'),
+                 'status_read': got.get('status')}))
+            return
 
 
 def judge(scn, r, here, init, final, log, res):
